@@ -672,6 +672,18 @@ impl Stream for SStream {
             _ => Poll::Pending,
         }
     }
+    /// Exact: the number of items the script will still deliver.  A stream may report that, and "no items left" is NOT
+    /// "has ended" -- the script may still return Pending before its End step (a combinator that skips an input because its
+    /// upper bound is 0 polls its successor too early).
+    fn size_hint(&self) -> (usize, Option<usize>) {
+        let n = w(|w| {
+            w.children
+                .get(self.idx)
+                .map(|c| c.script[c.pos.min(c.script.len())..].iter().filter(|s| matches!(s, Step::Item)).count())
+                .unwrap_or(0)
+        });
+        (n, Some(n))
+    }
 }
 
 impl Drop for SStream {
